@@ -19,6 +19,12 @@ def run(prop, quick=(8, 40), thorough=(16, 500), extra=None, require=(), maxstmt
             R.inconc("worker %s: %s" % (job["seed"], err))
             continue
         R.merge(res[prop])
+    if prop in ("C01", "C04"):
+        for job, res, err in shard.run_jobs("vf.progwork", "suite_under_monitors", [dict(props=[prop])], timeout=900):
+            if err:
+                R.inconc("repository test-suite under monitors: %s" % err[-300:])
+            else:
+                R.merge(res[prop])
     return R, R.finish(require_counters=require)
 
 
